@@ -186,6 +186,10 @@ impl PrimitiveKind {
     }
 
     pub fn can_apply_binary_op(&self, op: BinOp, to: PrimitiveKind) -> bool {
+        //an operand whose type is only known at runtime is accepted on either side
+        if to.is_any() && !matches!(self, PrimitiveKind::Undefined) {
+            return true;
+        }
         match self {
             PrimitiveKind::Any => true, //make it fail at runtime
             PrimitiveKind::Undefined => false,
